@@ -73,6 +73,16 @@ def call(ex, f, e):
         ex.eng._cur_ex = ex
         zs = [z for a, kd in zip(args, kinds) for z in ex.eng.unwrap_kinds(a, kd)]
         return ex.eng.wrap_kind(fn(*zs), retk)
+    if k == 'bound' and isinstance(f.obj, SFunc) and f.obj.kind == 'rematch':
+        if f.name == 'group':
+            args, _ = args_of(ex, e)
+            if not args:
+                return V(VStr(f.obj.whole))
+            idx = as_val(args[0])
+            if not (static_kind(idx) == 'VInt' and z3.is_int_value(idx.arg(0))):
+                raise Unsupported('group(computed index)')
+            return V(VStr(f.obj.parts[idx.arg(0).as_long() - 1]))
+        raise Unsupported('match.%s' % f.name)
     if k == 'bound':
         return call_method(ex, f.obj, f.name, e)
     if k == 'pyfunc':
@@ -148,8 +158,76 @@ def call_extern(ex, f, e):
         # (the difference between the two is ownership: see mutate.expr_roots)
         return args[0] if isinstance(args[0], V) else deep_copy(ex, args[0])
     if mod == 're' and name == 'match':
-        raise Unsupported('re.match')
+        return re_match(ex, args, e)
     raise Unsupported('external call %s.%s' % (mod, name))
+
+
+def re_match(ex, args, e):
+    """re.match(literal pattern, s) for a pattern that is a sequence of capturing groups (T1): the
+    match object exposes group(k).  Assumed: ASCII reading of \\d / \\D, and the decomposition into
+    the groups is the greedy one, which is unique when -- as checked here -- every group but the
+    last ends in a character class disjoint from the first characters of the next group."""
+    from . import regex as rx
+    pat = as_val(args[0])
+    if not (static_kind(pat) == 'VStr' and z3.is_string_value(pat.arg(0))):
+        raise Unsupported('re.match with a computed pattern')
+    pattern = pat.arg(0).as_string()
+    pattern = bytes(pattern, 'utf-8').decode('unicode_escape') if False else pattern
+    import re as _re
+    pattern_py = _re.sub(r'\\u\{([0-9a-f]+)\}', lambda m: chr(int(m.group(1), 16)), pattern)
+    tree = rx.parse(pattern_py)
+    items = [(op, av) for op, av in tree]
+    anchors_end = bool(items) and items[-1][0] is rx.sre_c.AT
+    groups = [av for op, av in items if op is rx.sre_c.SUBPATTERN]
+    if len(groups) + (1 if anchors_end else 0) != len(items) or not groups:
+        raise Unsupported('re.match pattern shape')
+    s = as_val(args[1])
+    ex.safe(is_str(s), 'TypeError', 're.match subject', e)
+    st = get_s(s)
+    parts = [fresh('grp%d' % (j + 1), vl.String) for j in range(len(groups))]
+    regs = [rx.translate(g[3]) for g in groups]
+    # `$` also matches before one trailing newline
+    tail = fresh('tail', vl.String)
+    whole = z3.Concat(*(parts + [tail])) if anchors_end else None
+    matched = fresh('matched', vl.Bool)
+    conj = [z3.InRe(p, r) for p, r in zip(parts, regs)]
+    if anchors_end:
+        conj.append(st == whole)
+        conj.append(z3.Or(tail == S(''), tail == S('\n')))
+        full = z3.Concat(*(regs + [z3.Option(rx.ch('\n'))]))
+        ex.assume(matched == z3.InRe(st, full))
+    else:
+        raise Unsupported('re.match without an end anchor')
+    # greedy = longest first groups; unique here because group k ends in a class disjoint from the
+    # first characters of group k+1 (asserted as an obligation on the pattern itself)
+    for j in range(len(groups) - 1):
+        last_cls = last_class(groups[j][3])
+        first_next, _ = rx.first_chars(groups[j + 1][3])
+        x = fresh('x', vl.String)
+        if last_cls is None:
+            raise Unsupported('re.match group shape')
+        ex.oblige('regex', z3.Not(z3.And(z3.InRe(x, last_cls), z3.InRe(x, first_next))),
+                  label='re.match.groups-unambiguous@%s' % getattr(e, 'lineno', '?'))
+        # the next group must not be extendable to the left: the part before it ends in last_cls
+        conj.append(z3.InRe(parts[j], z3.Concat(z3.Full(z3.ReSort(vl.String)), last_cls)))
+        # and the following groups cover everything after it (maximal trailing run)
+    ex.assume(z3.Implies(matched, z3.And(*conj)))
+    return SFunc('rematch', matched=matched, parts=parts, whole=st)
+
+
+def last_class(parsed):
+    from . import regex as rx
+    items = [(op, av) for op, av in parsed if op is not rx.sre_c.AT]
+    if not items:
+        return None
+    op, av = items[-1]
+    if op is rx.sre_c.IN:
+        return rx.class_items(av)
+    if op is rx.sre_c.LITERAL:
+        return rx.ch(av)
+    if op is rx.sre_c.NOT_LITERAL:
+        return z3.Diff(z3.AllChar(rx.RE), rx.ch(av))
+    return None
 
 
 def deep_copy(ex, sv):
